@@ -172,7 +172,17 @@ def _realise(arg):
     lab_mask = ~np.isnan(np.asarray(y, dtype=float))
     tr["zeroLabeledWeights"] = bool(w is not None and case["kind"] in ("NIC", "NW") and lab_mask.any()
                                     and np.all(np.asarray(w)[lab_mask] == 0))
-    ok, r = call("fit", lambda: reg.fit(X, y, sample_weight=w) if w is not None else reg.fit(X, y))
+    # how the missing labels are written: NaN (default) / a reserved number / None in an object array
+    mlp = int(rng.integers(4))
+    y_fit = y
+    if mlp == 2:
+        reg.set_params(missing_label=-999.0)
+        y_fit = np.where(np.isnan(y), -999.0, y)
+    elif mlp == 3:
+        reg.set_params(missing_label=None)
+        y_fit = np.array([None if v != v else float(v) for v in np.asarray(y, dtype=float)], dtype=object)
+    tr["concrete"]["missing_label"] = ("nan", "nan", "-999.0", "None")[mlp]
+    ok, r = call("fit", lambda: reg.fit(X, y_fit, sample_weight=w) if w is not None else reg.fit(X, y_fit))
     if not ok:
         if r["exc"] == "ValueError" and "must not be all zero" in r["msg"]:
             r = {"ev": "FitRejected", "msg": r["msg"]}
